@@ -1,32 +1,33 @@
 (* C11 -- schema repair changes only what it may, and logs every change.
    ONLY theorem statements closed by `exact`.  Model: Rep/Repair.v (consumes Gen/RepairGen.v); proofs: Rep/RepairFacts.v.
    orc_int / orc_float are the int()/float() oracle (arbitrary functions here: every theorem holds for every oracle unless
-   a hypothesis about the oracle is written out in the statement).  orc_float st = Some (repr x, isfinite x, x == 0). *)
+   a hypothesis about the oracle is written out in the statement).  orc_float st = Some (repr x, isfinite x, x == 0);
+   od = digit oracle (non-ASCII char -> Some (int(ch)) iff ch.isdecimal(); ASCII digits are computed by the model). *)
 From OV Require Import Base.Strs Rep.Ast Gen.RepairGen Rep.Repair Rep.RepairFacts Rep.Pins_Repair.
 From Coq Require Import ZArith.
 Open Scope N_scope.
 
 (* fix off (or no schema): nothing changes, nothing is logged *)
-Theorem C11_repair_fix_off : forall oi of_ sch d, repair oi of_ false sch d = (d, []).
+Theorem C11_repair_fix_off : forall oi of_ od sch d, repair oi of_ od false sch d = (d, []).
 Proof. exact repair_fix_off. Qed.
-Theorem C11_repair_no_schema : forall oi of_ fx d, repair oi of_ fx None d = (d, []).
+Theorem C11_repair_no_schema : forall oi of_ od fx d, repair oi of_ od fx None d = (d, []).
 Proof. exact repair_no_schema. Qed.
 
 (* keys, nesting, order, block targets, section ids/annotations, comments: unchanged *)
-Theorem C11_repair_shape : forall oi of_ fx sch d, map shape (fst (repair oi of_ fx sch d)) = map shape d.
+Theorem C11_repair_shape : forall oi of_ od fx sch d, map shape (fst (repair oi of_ od fx sch d)) = map shape d.
 Proof. exact repair_shape. Qed.
 
 (* the log is exactly the diff: per assignment, in document order, a chain of entries with the exact before/after
    texts leading from the old to the new value; empty chain <-> identical value (see `explains`, `chain`) *)
-Theorem C11_repair_log_is_diff : forall oi of_ fx sch d,
-  explains_l d (fst (repair oi of_ fx sch d)) (snd (repair oi of_ fx sch d)).
+Theorem C11_repair_log_is_diff : forall oi of_ od fx sch d,
+  explains_l d (fst (repair oi of_ od fx sch d)) (snd (repair oi of_ od fx sch d)).
 Proof. exact repair_log_is_diff. Qed.
 
 (* every entry: casefold to THE unique case-insensitive member of an ENUM of a schema field (which then
    satisfies ENUM), or text -> finite number for a TYPE[NUMBER] field (int text re-reads to the same integer; a float
    reported == 0 comes from a literal without a digit 1..9 in its mantissa) *)
-Theorem C11_repair_changes_allowed : forall oi of_ fx sch s d, sch = Some s ->
-  Forall (entry_ok oi of_ s) (snd (repair oi of_ fx sch d)).
+Theorem C11_repair_changes_allowed : forall oi of_ od fx sch s d, sch = Some s ->
+  Forall (entry_ok oi of_ od s) (snd (repair oi of_ od fx sch d)).
 Proof. exact repair_changes_allowed. Qed.
 
 Theorem C11_tiers_are_REPAIR :
@@ -35,15 +36,15 @@ Proof. exact repair_tiers_are_REPAIR. Qed.
 
 Theorem C11_repair_satisfies_enum : forall v a v' e, attempt_enum v a = Some (v', e) -> exists c, v' = VStr c /\ enum_eval a c = true.
 Proof. exact repair_satisfies_enum. Qed.
-Theorem C11_repair_satisfies_type : forall oi of_ v t v' e, attempt_type oi of_ v t = Some (v', e) -> is_number v' = true.
+Theorem C11_repair_satisfies_type : forall oi of_ od v t v' e, attempt_type oi of_ od v t = Some (v', e) -> is_number v' = true.
 Proof. exact repair_satisfies_type. Qed.
 
 (* a null (missing) value is never filled; nothing that is not text is ever changed; zones (deep) are fixed *)
-Theorem C11_repair_never_fills : forall oi of_ sch k, repair_node oi of_ sch (NAssign k VNull) = (NAssign k VNull, []).
+Theorem C11_repair_never_fills : forall oi of_ od sch k, repair_node oi of_ od sch (NAssign k VNull) = (NAssign k VNull, []).
 Proof. exact repair_never_fills. Qed.
-Theorem C11_repair_nonstr_fixed : forall oi of_ sch k v, is_str v = false -> repair_node oi of_ sch (NAssign k v) = (NAssign k v, []).
+Theorem C11_repair_nonstr_fixed : forall oi of_ od sch k v, is_str v = false -> repair_node oi of_ od sch (NAssign k v) = (NAssign k v, []).
 Proof. exact repair_nonstr_fixed. Qed.
-Theorem C11_repair_zones_fixed : forall oi of_ fx sch d, flat_map zones_n (fst (repair oi of_ fx sch d)) = flat_map zones_n d.
+Theorem C11_repair_zones_fixed : forall oi of_ od fx sch d, flat_map zones_n (fst (repair oi of_ od fx sch d)) = flat_map zones_n d.
 Proof. exact repair_zones_fixed. Qed.
 
 (* zero or several case-insensitive matches: not replaced *)
@@ -51,24 +52,24 @@ Theorem C11_repair_ambiguous_unchanged : forall s a, length (ci_matches s a) <> 
 Proof. exact repair_ambiguous_unchanged. Qed.
 
 (* exact ENUM members / non-text under TYPE[NUMBER]: identity, empty log (used by C10) *)
-Theorem C11_repair_noop_when_valid : forall oi of_ fx sch s d, sch = Some s -> forallb (settled_n s) d = true ->
-  repair oi of_ fx sch d = (d, []).
+Theorem C11_repair_noop_when_valid : forall oi of_ od fx sch s d, sch = Some s -> forallb (settled_n s) d = true ->
+  repair oi of_ od fx sch d = (d, []).
 Proof. exact repair_noop_when_valid. Qed.
 (* with "valid" read as the validator reads ENUM (unique prefix accepted) the statement is false *)
 Definition C11_repair_noop_when_prefix_valid_full : Prop := repair_noop_when_prefix_valid_full.
 Theorem C11_repair_noop_when_prefix_valid_refuted :
-  exists oi of_ k a s, enum_eval a s = true /\
-    repair oi of_ true (Some [(k, FChain [CEnum a])]) [NAssign k (VStr s)] <> ([NAssign k (VStr s)], []).
+  exists oi of_ od k a s, enum_eval a s = true /\
+    repair oi of_ od true (Some [(k, FChain [CEnum a])]) [NAssign k (VStr s)] <> ([NAssign k (VStr s)], []).
 Proof. exact repair_noop_when_prefix_valid_refuted. Qed.
 
 (* idempotence.  Full statement (document AND log) is false for chains with two ENUMs: the second run logs again
    although the document is stable; proved for simple chains *)
 Definition C11_repair_idempotent_full : Prop := repair_idempotent_full.
-Theorem C11_repair_idempotent_partial : forall oi of_ fx sch s d, sch = Some s -> simple_schema s = true ->
-  repair oi of_ fx sch (fst (repair oi of_ fx sch d)) = (fst (repair oi of_ fx sch d), []).
+Theorem C11_repair_idempotent_partial : forall oi of_ od fx sch s d, sch = Some s -> simple_schema s = true ->
+  repair oi of_ od fx sch (fst (repair oi of_ od fx sch d)) = (fst (repair oi of_ od fx sch d), []).
 Proof. exact repair_idempotent_partial. Qed.
 Theorem C11_repair_idempotent_log_refuted :
-  exists oi of_ s d, repair oi of_ true (Some s) (fst (repair oi of_ true (Some s) d)) <> (fst (repair oi of_ true (Some s) d), []).
+  exists oi of_ od s d, repair oi of_ od true (Some s) (fst (repair oi of_ od true (Some s) d)) <> (fst (repair oi of_ od true (Some s) d), []).
 Proof. exact repair_idempotent_log_refuted. Qed.
 Theorem C11_simple_schema_nonvacuous :
   simple_schema [([69], FChain [COther; CEnum [[65; 98]; [97]]; CType repair_number_type]); ([78], FChain [COther; CType repair_number_type])] = true.
@@ -77,84 +78,105 @@ Proof. exact simple_schema_nonvacuous. Qed.
 (* ---- lossless number coercion (after 80b6126: an underflowing literal is no longer coerced to zero) ----
    C11_repair_lossless: EVERY successful text -> number step, for EVERY oracle, no hypothesis: either the integer that
    int() read (logged text re-reads to exactly it) or a float the oracle reports finite and, when the oracle reports
-   it == 0, the literal has no digit 1..9 in its mantissa (nonzero_mantissa is computed by the model from the text;
-   closed form: C11_nonzero_mantissa_spec) *)
-Theorem C11_repair_lossless : forall oi of_ v t v' e, attempt_type oi of_ v t = Some (v', e) ->
+   it == 0, the literal has no decimal digit of non-zero value in its mantissa (nonzero_mantissa is computed by the model
+   from the text: ASCII digits in Gallina, non-ASCII decimal digits through the digit oracle od; closed form:
+   C11_nonzero_mantissa_spec) *)
+Theorem C11_repair_lossless : forall oi of_ od v t v' e, attempt_type oi of_ od v t = Some (v', e) ->
   exists s, v = VStr s /\ e_before e = s /\
     ((exists z, v' = VInt z /\ use_int (strip s) = true /\ oi (strip s) = Some z /\
                 e_after e = Z_to_dec z /\ read_dec (e_after e) = Some z)
      \/ (exists r zero, v' = VFloat r /\ use_int (strip s) = false /\ e_after e = r /\
                         of_ (strip s) = Some (r, true, zero) /\
-                        (zero = true -> nonzero_mantissa (strip s) = false))).
+                        (zero = true -> nonzero_mantissa od (strip s) = false))).
 Proof. exact repair_lossless. Qed.
 (* the same for every TYPE_COERCION entry in the log of any document under any schema *)
-Theorem C11_repair_lossless_log : forall oi of_ fx sch s d e, sch = Some s -> In e (snd (repair oi of_ fx sch d)) ->
+Theorem C11_repair_lossless_log : forall oi of_ od fx sch s d e, sch = Some s -> In e (snd (repair oi of_ od fx sch d)) ->
   e_rule e = repair_rule_type ->
   strip (e_before e) <> [] /\
   ((use_int (strip (e_before e)) = true /\ exists z, oi (strip (e_before e)) = Some z /\ e_after e = Z_to_dec z
        /\ read_dec (e_after e) = Some z)
    \/ (use_int (strip (e_before e)) = false /\ exists zero, of_ (strip (e_before e)) = Some (e_after e, true, zero)
-       /\ (zero = true -> nonzero_mantissa (strip (e_before e)) = false))).
+       /\ (zero = true -> nonzero_mantissa od (strip (e_before e)) = false))).
 Proof. exact repair_lossless_log. Qed.
-(* an underflowing literal (float() == 0, digit 1..9 in the mantissa) is not coerced; under a chain without ENUM the
+(* an underflowing literal (float() == 0, a decimal digit of non-zero value in the mantissa) is not coerced; under a chain without ENUM the
    assignment is returned unchanged with an empty log *)
-Theorem C11_repair_underflow_unrepaired : forall oi of_ s t r fin, use_int (strip s) = false ->
-  of_ (strip s) = Some (r, fin, true) -> nonzero_mantissa (strip s) = true -> attempt_type oi of_ (VStr s) t = None.
+Theorem C11_repair_underflow_unrepaired : forall oi of_ od s t r fin, use_int (strip s) = false ->
+  of_ (strip s) = Some (r, fin, true) -> nonzero_mantissa od (strip s) = true -> attempt_type oi of_ od (VStr s) t = None.
 Proof. exact repair_underflow_unrepaired. Qed.
-Theorem C11_repair_underflow_node_unrepaired : forall oi of_ sch k cs s r fin, lookup k sch = Some (FChain cs) ->
+Theorem C11_repair_underflow_node_unrepaired : forall oi of_ od sch k cs s r fin, lookup k sch = Some (FChain cs) ->
   no_enum cs = true -> use_int (strip s) = false -> of_ (strip s) = Some (r, fin, true) ->
-  nonzero_mantissa (strip s) = true ->
-  repair_node oi of_ sch (NAssign k (VStr s)) = (NAssign k (VStr s), []).
+  nonzero_mantissa od (strip s) = true ->
+  repair_node oi of_ od sch (NAssign k (VStr s)) = (NAssign k (VStr s), []).
 Proof. exact repair_underflow_node_unrepaired. Qed.
-(* the mantissa test with the generated tables eliminated: a digit 1..9 before the first e/E *)
-Theorem C11_nonzero_mantissa_spec : forall st,
-  nonzero_mantissa st = existsb (fun c => (49 <=? c) && (c <=? 57)) (takeb (fun c => negb ((c =? 101) || (c =? 69))) st).
+(* the mantissa test with the generated tables eliminated (od = the digit oracle: non-ASCII char -> Some (int(ch)) iff
+   ch.isdecimal()): some character before the first e/E is an ASCII digit 1..9 or a non-ASCII decimal digit of non-zero
+   value; on ASCII text the oracle is irrelevant *)
+Theorem C11_nonzero_mantissa_spec : forall od st,
+  nonzero_mantissa od st = existsb (nonzero_decimal_char od) (takeb (fun c => negb ((c =? 101) || (c =? 69))) st).
 Proof. exact nonzero_mantissa_spec. Qed.
+Theorem C11_nonzero_mantissa_ascii : forall od st, ascii_str st = true ->
+  nonzero_mantissa od st = existsb (fun c => (49 <=? c) && (c <=? 57)) (takeb (fun c => negb ((c =? 101) || (c =? 69))) st).
+Proof. exact nonzero_mantissa_ascii. Qed.
 (* regression by computation (was C11_repair_lossless_underflow_refuted before the fix): "1e-400", "-1e-400",
    " 2.0E-324" read by float() as +-0.0 stay text with an EMPTY log; "0e5", "-0.0e-999" are coerced and logged *)
 Theorem C11_repair_underflow_regression :
-  repair_tbl wit_tbl true (Some wit_number_schema) [NAssign [78] (VStr wit_underflow_text)]
+  repair_tbl wit_tbl wit_dig true (Some wit_number_schema) [NAssign [78] (VStr wit_underflow_text)]
     = ([NAssign [78] (VStr wit_underflow_text)], [])
-  /\ repair_tbl wit_tbl true (Some wit_number_schema) [NAssign [78] (VStr wit_underflow_neg_text)]
+  /\ repair_tbl wit_tbl wit_dig true (Some wit_number_schema) [NAssign [78] (VStr wit_underflow_neg_text)]
     = ([NAssign [78] (VStr wit_underflow_neg_text)], [])
-  /\ repair_tbl wit_tbl true (Some wit_number_schema) [NBlock [66] None [NAssign [78] (VStr wit_underflow_upper_text)]]
+  /\ repair_tbl wit_tbl wit_dig true (Some wit_number_schema) [NBlock [66] None [NAssign [78] (VStr wit_underflow_upper_text)]]
     = ([NBlock [66] None [NAssign [78] (VStr wit_underflow_upper_text)]], [])
-  /\ repair_tbl wit_tbl true (Some wit_number_schema) [NAssign [78] (VStr wit_zero_exp_text)]
+  /\ repair_tbl wit_tbl wit_dig true (Some wit_number_schema) [NAssign [78] (VStr wit_zero_exp_text)]
     = ([NAssign [78] (VFloat txt_0_0)], [mk_entry repair_rule_type wit_zero_exp_text txt_0_0 repair_tier_type])
-  /\ repair_tbl wit_tbl true (Some wit_number_schema) [NAssign [78] (VStr wit_zero_neg_text)]
+  /\ repair_tbl wit_tbl wit_dig true (Some wit_number_schema) [NAssign [78] (VStr wit_zero_neg_text)]
     = ([NAssign [78] (VFloat txt_m0_0)], [mk_entry repair_rule_type wit_zero_neg_text txt_m0_0 repair_tier_type]).
 Proof. exact repair_underflow_regression. Qed.
+(* regression for 0b7941a (was the known finding C11-underflow-nonascii-digit): U+FF11 e-400 and 0.0 U+0664 E-400, float
+   oracle reading 0.0, digit oracle 1 / 4, stay text with an EMPTY log; U+FF10 e5 (fullwidth zero) is coerced and logged;
+   and it is the digit oracle that decides (with an empty digit table the first text would be coerced) *)
+Theorem C11_repair_underflow_nonascii_regression :
+  repair_tbl wit_tbl wit_dig true (Some wit_number_schema) [NAssign [78] (VStr wit_fullwidth_one_text)]
+    = ([NAssign [78] (VStr wit_fullwidth_one_text)], [])
+  /\ repair_tbl wit_tbl wit_dig true (Some wit_number_schema) [NSection [49] [83] None [NAssign [78] (VStr wit_arabic_four_text)]]
+    = ([NSection [49] [83] None [NAssign [78] (VStr wit_arabic_four_text)]], [])
+  /\ repair_tbl wit_tbl wit_dig true (Some wit_number_schema) [NAssign [78] (VStr wit_fullwidth_zero_text)]
+    = ([NAssign [78] (VFloat txt_0_0)], [mk_entry repair_rule_type wit_fullwidth_zero_text txt_0_0 repair_tier_type]).
+Proof. exact repair_underflow_nonascii_regression. Qed.
+Theorem C11_repair_nonascii_not_decimal_coerced :
+  repair_tbl wit_tbl [] true (Some wit_number_schema) [NAssign [78] (VStr wit_fullwidth_one_text)]
+    = ([NAssign [78] (VFloat txt_0_0)], [mk_entry repair_rule_type wit_fullwidth_one_text txt_0_0 repair_tier_type]).
+Proof. exact repair_nonascii_not_decimal_coerced. Qed.
 
 (* at the level of the LOGGED TEXTS ("a literal with a non-zero mantissa never becomes a zero text").  Unconditionally
    (for every oracle) this fails only for an oracle that contradicts itself: repr "0.0" with flag "!= 0" *)
 Definition C11_repair_lossless_full : Prop := repair_lossless_full.
 Theorem C11_repair_lossless_inconsistent_oracle_refuted :
-  exists oi of_ s d e, In e (snd (repair oi of_ true (Some s) d)) /\ e_rule e = repair_rule_type /\
-    zero_text (e_after e) = true /\ nonzero_mantissa (strip (e_before e)) = true.
+  exists oi of_ od s d e, In e (snd (repair oi of_ od true (Some s) d)) /\ e_rule e = repair_rule_type /\
+    zero_text (e_after e) = true /\ nonzero_mantissa od (strip (e_before e)) = true.
 Proof. exact repair_lossless_inconsistent_oracle_refuted. Qed.
 (* float branch: only self-consistency of the oracle (zero repr text -> flagged == 0) is assumed; NOTHING about which
    literals float() maps to zero *)
-Theorem C11_repair_lossless_text_float : forall oi of_,
+Theorem C11_repair_lossless_text_float : forall oi of_ od,
   (forall st r fin zero, of_ st = Some (r, fin, zero) -> zero_text r = true -> zero = true) ->
-  forall s d e, In e (snd (repair oi of_ true (Some s) d)) -> e_rule e = repair_rule_type ->
+  forall s d e, In e (snd (repair oi of_ od true (Some s) d)) -> e_rule e = repair_rule_type ->
     use_int (strip (e_before e)) = false ->
-    zero_text (e_after e) = true -> nonzero_mantissa (strip (e_before e)) = false.
+    zero_text (e_after e) = true -> nonzero_mantissa od (strip (e_before e)) = false.
 Proof. exact repair_lossless_text_float. Qed.
 (* both branches (replaces C11_repair_lossless_partial, whose float hypothesis "float() never maps a non-zero literal to
    zero" is no longer needed); the int hypothesis is a fact of CPython int(), the int branch has no guard *)
-Theorem C11_repair_lossless_text : forall oi of_,
+Theorem C11_repair_lossless_text : forall oi of_ od,
   (forall st r fin zero, of_ st = Some (r, fin, zero) -> zero_text r = true -> zero = true) ->
-  (forall st z, oi st = Some z -> zero_text (Z_to_dec z) = true -> nonzero_mantissa st = false) ->
-  forall s d e, In e (snd (repair oi of_ true (Some s) d)) -> e_rule e = repair_rule_type ->
-    zero_text (e_after e) = true -> nonzero_mantissa (strip (e_before e)) = false.
+  (forall st z, oi st = Some z -> zero_text (Z_to_dec z) = true -> nonzero_mantissa od st = false) ->
+  forall s d e, In e (snd (repair oi of_ od true (Some s) d)) -> e_rule e = repair_rule_type ->
+    zero_text (e_after e) = true -> nonzero_mantissa od (strip (e_before e)) = false.
 Proof. exact repair_lossless_text. Qed.
 (* both hypotheses are computable on an oracle table (the extracted driver evaluates them on the real tables of every
    run: command `tblok`); they are satisfiable by a non-trivial table *)
-Theorem C11_repair_tbl_lossless_text : forall t, tbl_float_consistent t = true -> tbl_int_zero_ok t = true ->
-  forall s d e, In e (snd (repair_tbl t true (Some s) d)) -> e_rule e = repair_rule_type ->
-    zero_text (e_after e) = true -> nonzero_mantissa (strip (e_before e)) = false.
+Theorem C11_repair_tbl_lossless_text : forall t dt, tbl_float_consistent t = true -> tbl_int_zero_ok t dt = true ->
+  forall s d e, In e (snd (repair_tbl t dt true (Some s) d)) -> e_rule e = repair_rule_type ->
+    zero_text (e_after e) = true -> nonzero_mantissa (dig_find dt) (strip (e_before e)) = false.
 Proof. exact repair_tbl_lossless_text. Qed.
-Theorem C11_oracle_hypotheses_nonvacuous : tbl_float_consistent wit_tbl = true /\ tbl_int_zero_ok wit_tbl = true.
+Theorem C11_oracle_hypotheses_nonvacuous : tbl_float_consistent wit_tbl = true /\ tbl_int_zero_ok wit_tbl wit_dig = true.
 Proof. exact oracle_hypotheses_nonvacuous. Qed.
 Theorem C11_int_text_rereads : forall z, read_dec (Z_to_dec z) = Some z.
 Proof. exact read_dec_Z_to_dec. Qed.
@@ -164,11 +186,12 @@ Theorem C11_consumed_tables :
   repair_guards = [1; 2; 3; 4; 5; 6; 7] /\ repair_dispatch = [1; 2] /\ repair_int_branch_chars = [(46, 0); (101, 1)] /\
   repair_caught = [[86; 97; 108; 117; 101; 69; 114; 114; 111; 114]; [79; 118; 101; 114; 102; 108; 111; 119; 69; 114; 114; 111; 114]].
 Proof. exact (conj repair_guards_pin (conj repair_dispatch_pin (conj repair_int_branch_pin repair_caught_pin))). Qed.
-(* float branch: guard ORDER (1 not finite, then 2 zero with non-zero mantissa), split char 'e', on .lower(), digits 1..9;
+(* float branch: guard ORDER (1 not finite, then 2 zero with non-zero mantissa), split char 'e', on .lower(), per-character
+   test 2 = `ch.isdecimal() and int(ch) != 0` (1 would be the ASCII table of 80b6126: a reverted tree breaks this);
    and the source text of the two expressions the translator decomposed *)
 Theorem C11_consumed_float_guards :
   repair_float_guards = [1; 2] /\
-  (repair_mantissa_split = 101 /\ repair_mantissa_lower = 1 /\ repair_mantissa_digits = [49; 50; 51; 52; 53; 54; 55; 56; 57]) /\
+  (repair_mantissa_split = 101 /\ repair_mantissa_lower = 1 /\ repair_mantissa_digit_test = 2 /\ repair_mantissa_digits = []) /\
   repair_mantissa_expr = pinned_repair_mantissa_expr /\ repair_underflow_guard_test = pinned_repair_underflow_guard_test.
 Proof. exact (conj repair_float_guards_pin (conj repair_mantissa_pin (conj pin_repair_mantissa_expr pin_repair_underflow_guard_test))). Qed.
 
